@@ -352,7 +352,16 @@ theorem ci_handleMsgs (ms : List Msg) : ∀ (e : Ep) (P : LState), CI e → QInv
     split
     · exact ⟨hi, hq⟩
     · rename_i hc
-      simp only [hc, Bool.false_eq_true, if_false] at hleg hok hal
+      have hc' : ¬ (e.closed = true) := by simpa using hc
+      rw [if_neg hc'] at hleg hok hal
+      simp only [] at hleg hok hal
+      have hi : CI { e with rxMore := !ms.isEmpty || e.rx.dead } := CI.of_cv (e := e) rfl hi
+      have hq : QInv { e with rxMore := !ms.isEmpty || e.rx.dead } := QInv.of_qv (e := e) rfl hq
+      have hrx : RxInv { e with rxMore := !ms.isEmpty || e.rx.dead } := rxInv_of_view (e := e) rfl hrx
+      have htx : TxInv { e with rxMore := !ms.isEmpty || e.rx.dead } P := txInv_of_view (e := e) rfl htx
+      have hal : List.map ackInfo (acksOf (handleMsgs (handleMsg { e with rxMore := !ms.isEmpty || e.rx.dead } m).1 ms).1.processed)
+          <+: segInfo ({ e with rxMore := !ms.isEmpty || e.rx.dead } : Ep).emitted := hal
+      generalize ({ e with rxMore := !ms.isEmpty || e.rx.dead } : Ep) = e at *
       have hpre := processed_prefix_handleMsgs ms (handleMsg e m).1
       have hl1 := legal_of_prefix hpre hleg
       have hP0 : legalRun {} e.processed = some P := htx.hP
@@ -402,10 +411,10 @@ theorem ci_recvRaw (e : Ep) (c : Bytes) (P : LState) (hi : CI e) (hq : QInv e) (
   split
   · rename_i hd
     simp only [hd, if_true, proc_doClose] at hleg hok hal
-    exact ci_doClose _ (ci_handleMsgs _ _ P h0 hq0 hrx0 htx0 hleg hok hal).1
+    exact ci_doClose _ (CI.of_cv (e := (handleMsgs (rxEntry e c) (feed e.rx c).2).1) rfl (ci_handleMsgs _ _ P h0 hq0 hrx0 htx0 hleg hok hal).1)
   · rename_i hd
     simp only [hd, Bool.false_eq_true, if_false] at hleg hok hal
-    exact (ci_handleMsgs _ _ P h0 hq0 hrx0 htx0 hleg hok hal).1
+    exact CI.of_cv (e := (handleMsgs (rxEntry e c) (feed e.rx c).2).1) rfl (ci_handleMsgs _ _ P h0 hq0 hrx0 htx0 hleg hok hal).1
 
 /-! one event -/
 
